@@ -1032,7 +1032,8 @@ fn make_plan(cfg: &Chan, sizes: Sizes, base_w: [u64; N_OPS]) -> Plan {
     let ws: Vec<u32> = sizes.iter().map(|s| s.4).collect();
     let s = sizes[cfg.weighted(&ws)];
     let nkeys = cfg.range(s.0 as u64, s.1 as u64) as usize;
-    let planned = cfg.range(s.2, s.3);
+    // one run in eight is four times as long
+    let planned = cfg.range(s.2, s.3) * if cfg.chance(1, 8) { 4 } else { 1 };
     let mut w = base_w;
     for (i, wi) in w.iter_mut().enumerate() {
         // 0 -> as is, 1 -> switched off for this run, 2 -> tripled
